@@ -133,12 +133,25 @@ func takeSnapshot(h graph.Graph) *snapshot {
 	return s
 }
 
-// against compares a snapshot with the model (the diagonal of IsEdge is not
-// read: loops are C06's business).
-func (s *snapshot) against(g *rg.G) string {
+// isModel reports whether the snapshot shows the abstract graph g: the number
+// of vertices and the adjacency relation off the diagonal (the diagonal of
+// IsEdge is not read: loops are C06's business).
+func (s *snapshot) isModel(g *rg.G) string {
 	if s.n != g.N {
 		return fmt.Sprintf("N()=%d, model has %d vertices", s.n, g.N)
 	}
+	for v := 0; v < g.N; v++ {
+		for u := 0; u < g.N; u++ {
+			if u != v && s.adj[v][u] != g.Has(v, u) {
+				return fmt.Sprintf("IsEdge(%d,%d)=%v, model %v", v, u, s.adj[v][u], g.Has(v, u))
+			}
+		}
+	}
+	return ""
+}
+
+// derived compares the derived observers (M, Degrees, Neighbours) with the model.
+func (s *snapshot) derived(g *rg.G) string {
 	if s.m != g.M() {
 		return fmt.Sprintf("M()=%d, model has %d edges", s.m, g.M())
 	}
@@ -152,10 +165,24 @@ func (s *snapshot) against(g *rg.G) string {
 		if fmt.Sprint(s.nbrs[v]) != fmt.Sprint(g.Nbrs(v)) && !(len(s.nbrs[v]) == 0 && g.Deg(v) == 0) {
 			return fmt.Sprintf("Neighbours(%d)=%v, model %v", v, s.nbrs[v], g.Nbrs(v))
 		}
-		for u := 0; u < g.N; u++ {
-			if u != v && s.adj[v][u] != g.Has(v, u) {
-				return fmt.Sprintf("IsEdge(%d,%d)=%v, model %v", v, u, s.adj[v][u], g.Has(v, u))
-			}
+	}
+	return ""
+}
+
+// diff describes the first difference between two snapshots ("" if none).
+func (s *snapshot) diff(t *snapshot) string {
+	if s.n != t.n || s.m != t.m {
+		return fmt.Sprintf("N,M = %d,%d before and %d,%d after", s.n, s.m, t.n, t.m)
+	}
+	if fmt.Sprint(s.deg) != fmt.Sprint(t.deg) {
+		return fmt.Sprintf("Degrees() = %v before and %v after", s.deg, t.deg)
+	}
+	for v := 0; v < s.n; v++ {
+		if fmt.Sprint(s.nbrs[v]) != fmt.Sprint(t.nbrs[v]) {
+			return fmt.Sprintf("Neighbours(%d) = %v before and %v after", v, s.nbrs[v], t.nbrs[v])
+		}
+		if fmt.Sprint(s.adj[v]) != fmt.Sprint(t.adj[v]) {
+			return fmt.Sprintf("IsEdge(%d,.) = %v before and %v after", v, s.adj[v], t.adj[v])
 		}
 	}
 	return ""
@@ -230,16 +257,13 @@ func buildReprs(c *engine.Ctx, cs *graphCase, r *engine.Rng) []repr {
 	return out
 }
 
-// usable checks that the representation shows the model through its observers.
-func usable(c *engine.Ctx, cs *graphCase, rp repr, when string) (bool, string) {
+// observe reads the representation through the Graph interface (guarded).
+func observe(c *engine.Ctx, cs *graphCase, rp repr) (*snapshot, string) {
 	var s *snapshot
 	if pi := c.Call("observe-representation|"+rp.name+"|g6="+cs.g6, func() { s = takeSnapshot(rp.h) }); pi != nil {
-		return false, "observer panicked: " + pi.String()
+		return nil, "observer panicked: " + pi.String()
 	}
-	if d := s.against(cs.g); d != "" {
-		return false, d
-	}
-	return true, ""
+	return s, ""
 }
 
 // ---------------------------------------------------------------------------
@@ -273,10 +297,20 @@ func runCase(c *engine.Ctx, cs *graphCase, opt runOpts) {
 		if c.Stopped() {
 			return
 		}
-		if ok, why := usable(c, cs, rp, "before"); !ok {
+		before, why := observe(c, cs, rp)
+		if why == "" {
+			why = before.isModel(g)
+		}
+		if why != "" {
+			// the value is not a representation of this graph: not C09's case (C05/C06)
 			c.Obs("rep_unusable:"+rp.name, 1)
 			c.Sample("rep_unusable:"+rp.name, map[string]interface{}{"graph6": cs.g6, "how": rp.how, "why": why})
 			continue
+		}
+		if d := before.derived(g); d != "" {
+			// still judged: the invariants must not depend on the representation
+			c.Obs("rep_derived_observers_disagree_with_model:"+rp.name, 1)
+			c.Sample("rep_derived_observers_disagree_with_model:"+rp.name, map[string]interface{}{"graph6": cs.g6, "how": rp.how, "what": d})
 		}
 		c.Obs("rep:"+rp.name, 1)
 		if n >= 4 && g.M() >= 2 {
@@ -300,8 +334,12 @@ func runCase(c *engine.Ctx, cs *graphCase, opt runOpts) {
 		}
 		// none of the functions may have changed the graph it was given
 		c.Eval(1)
-		if ok, why := usable(c, cs, rp, "after"); !ok {
-			j.violation("any", "argument-graph-changed", "", nil, "after the calls the "+rp.name+" graph reads: "+why, "the graph passed to the functions is unchanged")
+		after, why := observe(c, cs, rp)
+		if why == "" {
+			why = before.diff(after)
+		}
+		if why != "" {
+			j.violation("any", "argument-graph-changed", "", nil, "after the calls the "+rp.name+" graph reads differently: "+why, "the graph passed to the functions is unchanged")
 		}
 	}
 }
@@ -838,7 +876,9 @@ func (j *judge) polynomial(eg graph.EditableGraph, rep string) {
 		var s *snapshot
 		if pi := c.Call("observe-representation|sparse|g6="+j.cs.g6, func() { s = takeSnapshot(eg) }); pi != nil {
 			j.panicked("ChromaticPolynomial", "argument-unreadable-afterwards", nil, pi)
-		} else if d := s.against(j.cs.g); d != "" {
+		} else if d := s.isModel(j.cs.g); d != "" {
+			j.violation("ChromaticPolynomial", "argument-graph-changed", "", nil, d, "the graph passed in is unchanged")
+		} else if d := s.derived(j.cs.g); d != "" {
 			j.violation("ChromaticPolynomial", "argument-graph-changed", "", nil, d, "the graph passed in is unchanged")
 		}
 	}
